@@ -4,6 +4,7 @@ package main
 // replay on the real code through an in-package test injected with `go test -overlay`.
 
 import (
+	"go/token"
 	"context"
 	"encoding/json"
 	"fmt"
@@ -97,7 +98,8 @@ type fieldObs struct {
 
 // scalarObs registers an observable and returns its name.
 type obsSet struct {
-	list []observable
+	list   []observable
+	bounds []*Term // length bounds under which every observed slice / string can be rendered
 }
 
 func (o *obsSet) add(t *Term) string {
@@ -151,6 +153,7 @@ func (ex *Exec) observeValue(os *obsSet, st *State, t types.Type, v Val, pkg *ty
 		if isString(u) {
 			sv := v.(*SliceV)
 			ln := os.add(sv.Len)
+			os.bounds = append(os.bounds, BVCmp("bvsle", sv.Len, BVu(64, 64)))
 			var bs []string
 			for i := 0; i < 64; i++ {
 				bs = append(bs, os.add(ex.strByte(sv, BVu(uint64(i), 64))))
@@ -174,6 +177,7 @@ func (ex *Exec) observeValue(os *obsSet, st *State, t types.Type, v Val, pkg *ty
 			return nil
 		}
 		ln := os.add(sv.Len)
+		os.bounds = append(os.bounds, BVCmp("bvsle", sv.Len, BVu(maxElems, 64)))
 		var elems []func(map[string]string) string
 		for i := 0; i < maxElems; i++ {
 			ev := ex.loadElem(st, u.Elem(), sv.Arr, BVOp("bvadd", sv.Off, BVu(uint64(i), 64)))
@@ -324,6 +328,16 @@ func (P *Prog) replay(root, prop string, o *Obligation, tier string) *ReplayResu
 	if o.FailedGoal != nil {
 		goal = o.FailedGoal
 	}
+	// what the engine's model of the code returns on the counterexample (matchers: matched, err)
+	var retMatched, retErrNil string
+	if kind == "matcher" && len(o.Rets) == 2 {
+		if m, ok := o.Rets[0].(*Term); ok && m.sort == SBool {
+			if e, ok := o.Rets[1].(*IfaceV); ok {
+				retMatched = pl.obs.add(m)
+				retErrNil = pl.obs.add(Eq(e.Tag, IntLit(0)))
+			}
+		}
+	}
 	asserts := append(enableAsserts(ctxv.cands), o.PC, Not(goal))
 	var vals map[string]string
 	found := false
@@ -332,6 +346,7 @@ func (P *Prog) replay(root, prop string, o *Obligation, tier string) *ReplayResu
 		if pl.extraLen != nil {
 			extra = append(extra, BVCmp("bvsle", pl.extraLen, BVu(bound, 64)))
 		}
+		extra = append(extra, pl.obs.bounds...)
 		for len(pl.byteObs) < int(bound) {
 			pl.byteObs = append(pl.byteObs, pl.obs.add(pl.byteAt(len(pl.byteObs))))
 		}
@@ -357,14 +372,26 @@ func (P *Prog) replay(root, prop string, o *Obligation, tier string) *ReplayResu
 		in[i] = byte(x)
 	}
 	info["input_hex"] = fmt.Sprintf("%x", in)
-	var cfg []string
+	// exported fields are set before Provision runs (it derives pointers, regexps, ... from them);
+	// the model's values of the unexported scalar/slice fields are assigned after it, so that the
+	// real run starts from the matcher state of the counterexample
+	var cfg, post []string
+	allRendered := true
 	for _, f := range pl.fields {
-		if s := f.render(vals); s != "" {
-			cfg = append(cfg, f.name+": "+s)
+		s := f.render(vals)
+		if s == "" {
+			allRendered = false
+		}
+		if s != "" {
+			if token.IsExported(f.name) {
+				cfg = append(cfg, f.name+": "+s)
+			} else {
+				post = append(post, "m."+f.name+" = "+s)
+			}
 		}
 	}
-	info["config"] = cfg
-	src := matcherHarness(pl, in, cfg)
+	info["config"] = append(append([]string{}, cfg...), post...)
+	src := matcherHarness(pl, in, cfg, post)
 	info["harness_go"] = src
 	out, err := P.runOverlayTest(pl.pkgDir, src)
 	info["real_code_output"] = firstLines(out, 30)
@@ -373,6 +400,20 @@ func (P *Prog) replay(root, prop string, o *Obligation, tier string) *ReplayResu
 		return finish()
 	}
 	res.Reproduced, res.Detail = judgeReplay(o, out, P.allocLimit)
+	if !res.Reproduced && allRendered && retMatched != "" && vals[retMatched] != "" && vals[retErrNil] != "" {
+		// a functional obligation: the counterexample replays when the real code returns what the
+		// engine's model of the code returns on this input and configuration (the values the
+		// obligation calls wrong)
+		want := fmt.Sprintf("matched=%s", vals[retMatched])
+		line := grepLine(out, "GVC-REPLAY: result")
+		realNil := strings.Contains(line, "err=<nil>")
+		if line != "" && strings.Contains(line, want) && realNil == (vals[retErrNil] == "true") {
+			res.Reproduced = true
+			res.Detail = "real code returns " + strings.TrimPrefix(line, "GVC-REPLAY: result ") + " on this input and configuration, as the verifier's model of the code predicts; the obligation says that result is wrong: " + o.Desc
+		} else {
+			res.Detail += " (the model predicted matched=" + vals[retMatched] + " err==nil:" + vals[retErrNil] + ")"
+		}
+	}
 	return finish()
 }
 
@@ -422,7 +463,7 @@ func grepLine(out, pat string) string {
 	return ""
 }
 
-func matcherHarness(pl *replayPlan, in []byte, cfg []string) string {
+func matcherHarness(pl *replayPlan, in []byte, cfg []string, post []string) string {
 	var sb strings.Builder
 	fmt.Fprintf(&sb, "package %s\n\n", pl.pkgName)
 	sb.WriteString(`import (
@@ -460,7 +501,11 @@ func TestGvcReplay(t *testing.T) {
 	defer c1.Close()
 	defer c2.Close()
 	cx := layer4.WrapConnection(c1, in, zap.NewNop())
-	var ms runtime.MemStats
+`)
+	for _, p := range post {
+		sb.WriteString("\t" + p + "\n")
+	}
+	sb.WriteString(`	var ms runtime.MemStats
 	runtime.ReadMemStats(&ms)
 	before := ms.TotalAlloc
 	func() {
